@@ -1,3 +1,5 @@
+//verif:v2only (root-module instantiation pending: API differences)
+
 package codecprops
 
 // C06 - required-field accounting and unknown-field tolerance when decoding.
@@ -347,12 +349,6 @@ func checkMissing(rec *stats.Recorder, c editCase) (msg string, known string) {
 	return "", ""
 }
 
-func min3(n int) int {
-	if n > 3 {
-		return 3
-	}
-	return n
-}
 
 func TestC06Missing(t *testing.T) {
 	g := &aval.Gen{S: S, MaxDepth: 4, PlainKeys: true}
